@@ -79,6 +79,8 @@ def run_shard(shard, tier, seed, wd, res):
             s.op(gp + ".iso", lit(P))
             if rng.random() < 0.3:
                 s.op(gp + ".iso", lit(P, f.neg(f.one)))
+            if rng.random() < 0.3:
+                s.op(gp + ".iso", lit(P, rng.choice(G.special_lambdas(g, rng))))
         for _ in range(60):
             o = s.op(gp + ".osswu", T(f.rand(rng)))
             s.op(gp + ".iso", o)
